@@ -262,6 +262,7 @@ type c08Hist struct {
 	touched map[[2]int]bool
 	pairs   [][2]int
 	nontriv bool
+	pending []*c08Plan // admitted and held back: offered again (recheck) at the start of the next block step
 	ntTx    map[string]struct{}
 	stat    *c08RunStats
 }
@@ -351,6 +352,16 @@ func c08BaseFee(c *c08Config, gas uint64) sdk.Coins {
 // in one block, observes the state afterwards and records the step.
 func (h *c08Hist) block(plans []*c08Plan, scenario string) {
 	n := h.n
+	// what is still pending is rechecked first, right after the commit, as CometBFT does
+	if len(h.pending) > 0 {
+		for _, p := range h.pending {
+			p.tx.recheck, p.tx.hold = true, p.holdAgain
+			p.holdAgain = false
+			p.setBal, p.setAllow = nil, nil
+		}
+		plans = append(append([]*c08Plan(nil), h.pending...), plans...)
+		h.pending = nil
+	}
 	planned := map[[2]int]bool{}
 	for _, p := range plans {
 		for _, sb := range p.setBal {
@@ -377,9 +388,13 @@ func (h *c08Hist) block(plans []*c08Plan, scenario string) {
 	var blockTx []*c08Tx
 	for _, p := range plans {
 		t := p.tx
-		bz, err := n.sign(t, seqs)
-		if err != nil {
-			h.t.Fatalf("sign: %v", err)
+		bz := t.bz
+		if !t.recheck {
+			var err error
+			if bz, err = n.sign(t, seqs); err != nil {
+				h.t.Fatalf("sign: %v", err)
+			}
+			t.bz = bz
 		}
 		if t.granter > 0 && t.granter != t.payer {
 			h.touch([2]int{t.granter, t.payer})
@@ -388,16 +403,23 @@ func (h *c08Hist) block(plans []*c08Plan, scenario string) {
 		if t.forced {
 			bump = p.expectAnte
 		} else {
-			chk, err := n.app.CheckTx(&abci.RequestCheckTx{Tx: bz, Type: abci.CheckTxType_New})
+			typ := abci.CheckTxType_New
+			if t.recheck {
+				typ = abci.CheckTxType_Recheck
+			}
+			chk, err := n.app.CheckTx(&abci.RequestCheckTx{Tx: bz, Type: typ})
 			if err != nil {
 				h.t.Fatalf("CheckTx: %v", err)
 			}
 			t.admitted, t.chkCode, t.chkGasUsed = chk.Code == 0, chk.Code, chk.GasUsed
+			t.ok, t.code, t.gasUsed = false, 0, 0
 			bump = t.admitted
 		}
-		if t.admitted || t.forced {
+		if t.admitted && !t.hold || t.forced {
 			inBlock = append(inBlock, bz)
 			blockTx = append(blockTx, t)
+		} else if t.admitted {
+			h.pending = append(h.pending, p)
 		}
 		if bump {
 			for _, s := range t.signers {
@@ -442,7 +464,7 @@ func (h *c08Hist) block(plans []*c08Plan, scenario string) {
 	for _, p := range plans {
 		t := p.tx
 		items = append(items, fmt.Sprintf("(%s, Xo %s %s)", t.btxTerm(n), coqBool(t.admitted), coqBool(t.ok)))
-		if t.admitted || t.forced {
+		if t.admitted && !t.hold || t.forced {
 			if nIn > 0 && !t.ok {
 				nFailedLater++
 			}
@@ -467,7 +489,9 @@ func (h *c08Hist) block(plans []*c08Plan, scenario string) {
 func (h *c08Hist) countTx(p *c08Plan, cfg *c08Config, scenario string, blockSize int) {
 	w, n, t := h.w, h.n, p.tx
 	outcome := "rejected"
-	if t.admitted || t.forced {
+	if t.admitted && t.hold {
+		outcome = "held-pending"
+	} else if t.admitted || t.forced {
 		outcome = "failed"
 		if t.ok {
 			outcome = "ok"
@@ -487,6 +511,9 @@ func (h *c08Hist) countTx(p *c08Plan, cfg *c08Config, scenario string, blockSize
 	if t.forced {
 		w.Count("forced-into-block:" + outcome)
 	}
+	if t.recheck {
+		w.Count("recheck:" + p.recheckWhy + ":" + outcome)
+	}
 	w.Count("fee:" + p.feeMode + ":" + outcome)
 	w.Count("grant:" + p.grantMode + ":" + outcome)
 	w.Count("balance:" + p.balMode + ":" + outcome)
@@ -496,6 +523,7 @@ func (h *c08Hist) countTx(p *c08Plan, cfg *c08Config, scenario string, blockSize
 	}
 	if !t.forced && !t.admitted {
 		w.Count(fmt.Sprintf("check-code:%d", t.chkCode))
+	} else if t.hold && t.admitted {
 	} else if !t.ok {
 		w.Count(fmt.Sprintf("deliver-code:%d", t.code))
 	}
@@ -567,7 +595,7 @@ func (h *c08Hist) countTx(p *c08Plan, cfg *c08Config, scenario string, blockSize
 		}
 		walk(m)
 	}
-	if (t.admitted || t.forced) && (!addl.IsZero() || !t.ok || t.granter > 0) {
+	if (t.admitted && !t.hold || t.forced) && (!addl.IsZero() || !t.ok || t.granter > 0) {
 		h.ntTx[cfg.term()+t.btxTerm(n)] = struct{}{}
 		h.nontriv = true
 	}
@@ -575,7 +603,7 @@ func (h *c08Hist) countTx(p *c08Plan, cfg *c08Config, scenario string, blockSize
 		"msgs": len(t.msgs), "routed": nRouted, "fee_mode": p.feeMode, "grant_mode": p.grantMode, "balance_mode": p.balMode,
 		"gas_mode": p.gasMode, "body": p.bodyMode, "floor": cfg.floor.String(), "schedule": len(cfg.schedule), "conversion_denom": cfg.conv,
 		"outcome": outcome, "check_code": t.chkCode, "deliver_code": t.code, "gas_used": t.gasUsed, "forced": t.forced,
-		"block_scenario": scenario, "block_size": blockSize, "step": len(h.steps)})
+		"block_scenario": scenario, "block_size": blockSize, "step": len(h.steps), "recheck": t.recheck, "held": t.hold})
 	if t.ok && p.payWork != nil {
 		n.payments = p.payWork
 	}
@@ -665,6 +693,10 @@ func (h *c08Hist) govStep(items []c08GovItem, voteYes, viaTx bool, shape string)
 // ---------- steps of the random histories ----------
 
 func (h *c08Hist) stepSingle(redraw bool) {
+	if pid, err := h.n.app.GovKeeper.ProposalID.Peek(h.ctx); err == nil {
+		h.g.nextPid = pid
+	}
+	defer func() { h.g.nextPid = 0 }()
 	cfg := h.st.cfg
 	if redraw {
 		cfg = c08GenConfig(h.r)
@@ -799,6 +831,140 @@ func (h *c08Hist) stepMulti() {
 		}
 	}
 	h.block(plans, scenario)
+}
+
+func (c *c08Config) copy() *c08Config {
+	d := *c
+	d.schedule = append([]c08FeeEntry(nil), c.schedule...)
+	return &d
+}
+
+var c08RecheckWhy = []string{"nothing-changed", "schedule-raised-by-direct-write", "floor-price-raised", "governance-adds-or-raises-a-fee", "payer-drained", "conversion-changed"}
+
+// stepRecheck: 2-4 transactions are offered; the proposer holds some of the admitted ones back (they
+// stay pending) and puts the others into a block; then something changes and is committed - a fee is
+// added or raised (directly or by a passing proposal), the floor price or the conversion changes, a
+// payer loses its funds - and the next block step starts with CheckTx(Recheck) of what is pending.
+func (h *c08Hist) stepRecheck(whyIdx int) {
+	r, g := h.r, h.g
+	cfg := h.st.cfg
+	if whyIdx >= 0 || r.Intn(3) == 0 {
+		cfg = c08GenConfig(r)
+		h.setCfg(cfg)
+	}
+	if whyIdx < 0 {
+		whyIdx = r.Intn(len(c08RecheckWhy))
+	}
+	why := c08RecheckWhy[whyIdx]
+	g.nextPid = 0
+	var plans []*c08Plan
+	k := 2 + r.Intn(3)
+	held := 0
+	for i := 0; i < k; i++ {
+		o := c08PlanOpts{noBal: true}
+		if r.Intn(4) != 0 {
+			o.feeMode = "exact" // covered exactly under the schedule in force: any raise uncovers it
+		}
+		p := g.plan(h.st, cfg, o)
+		if r.Intn(2) == 0 || (i == k-1 && held == 0) {
+			p.tx.hold = true
+			held++
+		}
+		plans = append(plans, p)
+	}
+	h.block(plans, "recheck:admit-and-hold")
+	h.w.Count(fmt.Sprintf("recheck:pending-after-first-block:%d", len(h.pending)))
+	top := map[int]bool{}
+	for _, p := range h.pending {
+		p.recheckWhy = why
+		for _, m := range p.tx.msgs {
+			top[m.kind] = true
+		}
+	}
+	var kinds []int
+	for _, kd := range []int{c08Send, c08Exec, c08Assess, c08Submit, c08Vote} {
+		if top[kd] {
+			kinds = append(kinds, kd)
+		}
+	}
+	if len(kinds) == 0 {
+		kinds = []int{c08Send}
+	}
+	cur := h.st.cfg
+	switch why {
+	case "schedule-raised-by-direct-write":
+		nc := cur.copy()
+		for _, kd := range kinds {
+			found := false
+			for i := range nc.schedule {
+				if nc.schedule[i].kind == kd {
+					nc.schedule[i].coin = nc.schedule[i].coin.AddAmount(sdkmath.NewInt(int64(1 + r.Intn(500))))
+					found = true
+				}
+			}
+			if !found {
+				nc.schedule = append(nc.schedule, c08FeeEntry{kind: kd, coin: sdk.NewInt64Coin(c08Denoms[r.Intn(2)], int64(1+r.Intn(900)))})
+			}
+		}
+		h.setCfg(nc)
+	case "floor-price-raised":
+		nc := cur.copy()
+		nc.floor = nc.floor.AddAmount(sdkmath.NewInt(int64(1 + r.Intn(2))))
+		h.setCfg(nc)
+	case "governance-adds-or-raises-a-fee":
+		var items []c08GovItem
+		for _, kd := range kinds[:1+r.Intn(len(kinds))] {
+			it := g.govFee(kd, "add")
+			for _, e := range cur.schedule {
+				if e.kind == kd {
+					it.op = "update"
+					it.coin = e.coin.AddAmount(sdkmath.NewInt(int64(1 + r.Intn(500))))
+				}
+			}
+			items = append(items, it)
+		}
+		h.govStep(items, true, false, "raises-fees-of-pending-transactions")
+	case "payer-drained":
+		for _, p := range h.pending {
+			src := p.tx.payer
+			if p.tx.granter > 0 {
+				src = p.tx.granter
+			}
+			for d := 0; d < 3; d++ {
+				if cur.floor.Denom == c08Denoms[d] {
+					h.setBal(src, d, sdkmath.NewInt(int64(r.Intn(3))))
+				}
+			}
+		}
+	case "conversion-changed":
+		nc := cur.copy()
+		if r.Intn(2) == 0 {
+			nc.perMil = nc.perMil*3 + 1
+		} else {
+			for _, d := range c08Denoms[:3] {
+				if d != nc.conv {
+					nc.conv = d
+					break
+				}
+			}
+		}
+		h.setCfg(nc)
+	}
+	var more []*c08Plan
+	for i, m := 0, r.Intn(3); i < m; i++ {
+		more = append(more, g.plan(h.st, h.st.cfg, c08PlanOpts{noBal: true}))
+	}
+	// now and then the proposer holds a survivor back once more: it is rechecked a second time
+	if len(h.pending) > 0 && r.Intn(5) == 0 {
+		h.pending[len(h.pending)-1].holdAgain = true
+	}
+	h.block(more, "recheck:"+why)
+	if len(h.pending) > 0 {
+		for _, p := range h.pending {
+			p.recheckWhy = "second-recheck"
+		}
+		h.block(nil, "recheck:second-round")
+	}
 }
 
 func (h *c08Hist) stepGov() {
@@ -1129,6 +1295,13 @@ func TestC08(t *testing.T) {
 		h.st = n.observe(ctx)
 		h.init = n.observe(ctx)
 		switch hi % 8 {
+		case 3:
+			h.kind = "mempool-recheck"
+			for i := range c08RecheckWhy {
+				h.stepRecheck(i)
+			}
+			h.stepRecheck(1)
+			h.stepRecheck(3)
 		case 2:
 			h.kind = "governance-rollback"
 			h.govRollback()
@@ -1146,8 +1319,10 @@ func TestC08(t *testing.T) {
 					h.stepSingle(true)
 				case k < 60:
 					h.stepSingle(false)
-				case k < 86:
+				case k < 80:
 					h.stepMulti()
+				case k < 88:
+					h.stepRecheck(-1)
 				default:
 					h.stepGov()
 					if r.Intn(2) == 0 {
